@@ -98,6 +98,9 @@ class C13(Monitor):
                 d = payload_of(rand_shape(rnd), rnd.choice(ids) if ids and rnd.random() < 0.5 else "zz")
                 d["type"] = rnd.choice(["TriangularRegion", "", None, "rectangularregion"])
                 steps.append(["api", rnd.choice(["addExcludeRegion", "updateExcludeRegion"]), d, anon])
+            elif t < 0.66:
+                steps.append(["api", rnd.choice(["renameExcludeRegion", "", "addexcluderegion"]),
+                              payload_of(rand_shape(rnd), rnd.choice(ids) if ids and rnd.random() < 0.5 else "q%d" % n), anon])
             elif t < 0.72:
                 steps.append(["api", "deleteExcludeRegion", dict(id=rnd.choice(["nope", None] + ids[-1:])), anon])
             elif t < 0.8 and ids:
@@ -158,6 +161,8 @@ class C13(Monitor):
                         want = ("ok",)
                 elif data.get("type") not in ("RectangularRegion", "CircularRegion"):
                     want = ("reject", 400)
+                elif cmd not in ("addExcludeRegion", "updateExcludeRegion"):
+                    want = ("reject", 400)          # unknown command
                 elif cmd == "addExcludeRegion":
                     if data.get("id") is not None and any(r["id"] == data["id"] for r in model):
                         want = ("reject", 409)
